@@ -1198,7 +1198,19 @@ class SyncInterpreter(BaseInterpreter[TContext, TEvent]):
                 if on_complete is not None:
                     self._queue_actor_done(child, on_complete)
                 child.stop()
-                self._actors.pop(actor_id, None)
+                # 🧹 Only forget OUR child. After `stopChild(id)` the same id
+                #    may already name a newly spawned actor; popping by id
+                #    alone unregistered that one, so it could no longer be
+                #    addressed or stopped and outlived the parent's `stop()`.
+                if self._actors.get(actor_id) is child:
+                    self._actors.pop(actor_id, None)
+                    self._actor_sources.pop(actor_id, None)
+                # 🌐 A child that ended on its own must not stay addressable
+                #    by systemId either.
+                registry = self._system_registry()
+                for system_id, candidate in list(registry.items()):
+                    if candidate is child:
+                        del registry[system_id]
                 logger.info("🧹 Actor thread for '%s' cleaned up.", actor_id)
 
         # 🚀 Start the thread
